@@ -11,11 +11,15 @@ import (
 
 func init() {
 	core.Register(&core.PropDef{
-		ID:        "C12",
-		Run:       runC12,
-		Technique: "runtime set-cover / order / early-stop oracles on the NACK pair helpers, with exhaustive enumeration of (PacketID, bitmap) pairs",
+		ID:         "C12",
+		Run:        runC12,
+		RunRace:    func(c *core.Ctx) { coldSection(c, c.N(32, 800), []string{"nack-list", "nack-range", "nack-pairs"}) },
+		RaceShards: 4,
+		RaceProcs:  4,
+		Technique:  "runtime set-cover / order / early-stop oracles on the NACK pair helpers, with exhaustive enumeration of (PacketID, bitmap) pairs",
 		Rule: "NackPairsFromSequenceNumbers: all lists of length <= 3 over a 27-value window straddling 65535->0 plus random lists (length <= 300; gaps biased to 0, 1, 15, 16, 17, 18, 65535; sorted, reversed, shuffled, duplicates); " +
 			"PacketList/Range: all 2^16 bitmaps x 40 packet ids (quick) / all 2^32 (id, bitmap) pairs (thorough); early stop: all 18 stop positions x all 2^16 bitmaps; " +
+			"cold start: child processes whose first calls into PacketList/Range/NackPairsFromSequenceNumbers are made by 2..32 goroutines at once, compared with a sequential child, with and without the race detector; " +
 			"non-trivial = every case; pairs are distinct by construction, lists by digest",
 		Assumptions: []string{
 			"expected PacketList(id, bm) = [id] ++ [id+i+1 mod 2^16 | bit i set, ascending i]",
@@ -139,6 +143,7 @@ func min(a, b int) int {
 }
 
 func runC12(c *core.Ctx) {
+	coldSection(c, c.N(32, 800), []string{"nack-list", "nack-range", "nack-pairs"})
 	// (1) lists: exhaustive small lists over a window straddling the wrap
 	window := []uint16{}
 	for v := -10; v <= 16; v++ {
